@@ -85,15 +85,22 @@ def model_runs(chk, cfgs, canaries, module="RecVerifier", extra_ok=()):
 def shapes(chk, tier, rnd):
     """(program, configuration, padding, outer configuration) candidates per slot"""
     thorough = tier == "thorough"
-    p1 = c01.tlc_programs(chk, "Programs_len1", "Programs: all one-instruction programs")
-    psim = c01.tlc_programs(chk, "Programs_sim", "Programs: simulated programs", simulate=300 if thorough else 100, depth=13, exhaustive=False)
+    with ThreadPoolExecutor(max_workers=3) as ex:
+        f1 = ex.submit(c01.tlc_programs, chk, "Programs_len1", "Programs: all one-instruction programs")
+        f2 = ex.submit(c01.tlc_programs, chk, "Programs_sim", "Programs: simulated programs", 300 if thorough else 40, 13, False)
+        f3 = ex.submit(common.tlc, "Configs", "Configs", 1, 300)
+        p1, psim, rc = f1.result(), f2.result(), f3.result()
+    if not rc.ok:
+        raise ToolError("spec Configs: " + str(rc.violated))
     psim = [p for p in psim if len(p["prog"]["instrs"]) >= 3]
     key = lambda p: json.dumps(p["prog"], sort_keys=True)
     p1.sort(key=key)
     psim.sort(key=key)
     rnd.shuffle(p1)
     rnd.shuffle(psim)
-    cfgs, classes = c01.configs(chk)
+    # the lattice and the input-class vectors of spec/Configs.tla (its FriAdmissible table is confronted with the harness by C01)
+    cfgs = sorted(common.tagged(rc.prints, "CFGS")[0], key=lambda c: json.dumps(c, sort_keys=True))
+    classes = sorted(common.tagged(rc.prints, "CLASSES")[0], key=lambda c: json.dumps(c, sort_keys=True))
     alg = [c for c in cfgs if not c["keccak"] and c["width"] != "narrow"]
     strong = [c for c in alg if c["q"] * c["rate"] + c["pow"] >= 50 and not c["zk"]]
     strong_zk = [c for c in alg if c["q"] * c["rate"] + c["pow"] >= 50 and c["zk"] and c["q"] <= 14]
@@ -132,8 +139,10 @@ def shapes(chk, tier, rnd):
 
 
 def run_parallel(rows, name, nproc, extra=None, nslots=None):
-    # all candidates of a slot go to the same process
-    parts = [[r for r in rows if r["slot"] % nproc == i] for i in range(nproc)]
+    # all candidates of a slot go to the same process; zero-knowledge shapes (2^12 rows of blinding) are spread first
+    slots = sorted({r["slot"] for r in rows}, key=lambda k: (not any(r["cfg"]["zk"] for r in rows if r["slot"] == k), k))
+    where = {k: i % nproc for i, k in enumerate(slots)}
+    parts = [[r for r in rows if where[r["slot"]] == i] for i in range(nproc)]
     files = []
     for i, part in enumerate(parts):
         fp = os.path.join(common.OUT, "%s.part%d.ndjson" % (name, i))
@@ -257,7 +266,7 @@ def run(chk, tier):
     sc = scenario_classes(cats_lines)
     for r in rows:
         r["classes"] = sc
-        r["per_class"] = 4 if thorough else 2
+        r["per_class"] = 4 if thorough else (1 if r["cfg"]["zk"] else 2)
         r["sample"] = 3 if thorough else 2
     res = run_parallel(rows, "c06_run", 4 if thorough else 3)
     common.write_ndjson(os.path.join(common.OUT, "c06_results.ndjson"), res)
